@@ -35,6 +35,24 @@ func frozenMap(s *Snap) map[string]*big.Int {
 	return m
 }
 
+// frozenCount is the number of frozen-fund items that share a key: the 5% cut is rounded down per
+// item, so a key that merges n items may be up to n-1 units below floor(95%) of the sum.
+func frozenCount(s *Snap) map[string]int64 {
+	m := map[string]int64{}
+	for i := range s.Raw.FrozenFunds {
+		m[frozenKey(&s.Raw.FrozenFunds[i])]++
+	}
+	return m
+}
+
+func cutFloor(old *big.Int, items int64) *big.Int {
+	exp := new(big.Int).Div(new(big.Int).Mul(old, big.NewInt(95)), big.NewInt(100))
+	if items > 1 {
+		exp.Sub(exp, big.NewInt(items-1))
+	}
+	return exp
+}
+
 // ---------------- C16: staked coins leave staking only on schedule ----------------
 
 type MonC16 struct {
@@ -206,7 +224,7 @@ func (m *MonC16) AfterBlock(w *World, b *BlockCtx) {
 		seg := strings.Split(k, "/")
 		if fh != h {
 			// the 5% cut leaves floor(old*95/100)
-			if hasEvidence && now.Cmp(new(big.Int).Div(new(big.Int).Mul(old, big.NewInt(95)), big.NewInt(100))) >= 0 {
+			if hasEvidence && now.Cmp(cutFloor(old, frozenCount(b.Prev)[k])) >= 0 {
 				m.classes["frozen-slashed"] = true
 				continue
 			}
@@ -741,7 +759,7 @@ func (m *MonC18) AfterBlock(w *World, b *BlockCtx) {
 			if seg[3] != fmt.Sprint(target.ID) || fh <= h || fh > h+m.unbondP {
 				continue
 			}
-			exp := new(big.Int).Div(new(big.Int).Mul(old, big.NewInt(95)), big.NewInt(100))
+			exp := cutFloor(old, frozenCount(b.Prev)[k])
 			now := frozenMap(b.Cur)[k]
 			if now == nil {
 				now = new(big.Int)
